@@ -248,7 +248,7 @@ RULE = ("operation lines generated from VERIF_SEED by the harness (mostly-valid 
 
 PROPS = {
     "C01": P("proof", [("mul", 24, 6000)], ["PT.mul"], rule=RULE, model_ignore=["c"]),
-    "C02": P("proof", [("grouplaw", 1500, 200000)], ["PT.add", "PT.addnil", "PT.addself", "PT.dbl", "PT.neg", "PT.sub", "PT.subnil", "PT.subself", "PT.viaid"], rule=RULE, model_ignore=["c", "c1", "c2", "c3", "c4"]),
+    "C02": P("proof", [("grouplaw", 1500, 200000)], ["PT.add", "PT.addnil", "PT.addself", "PT.dbl", "PT.neg", "PT.sub", "PT.subnil", "PT.subself", "PT.viaid", "PT.viaapi"], rule=RULE, model_ignore=["c", "c1", "c2", "c3", "c4"]),
     "C03": P("proof", [("decode", 1200, 150000)], ["DEC.*"], rule=RULE),
     "C04": P("proof", [("enc", 600, 80000), ("roundtrip", 300, 40000)], ["PT.enc", "G.base", "G.consts", "G.order", "DEC.*"], rule=RULE),
     "C05": P("proof", [("eq", 1500, 200000)], ["PT.eq", "PT.eqself", "PT.isid"], rule=RULE),
